@@ -691,6 +691,16 @@ func runC09(p *core.Program, r *core.Report) {
 				if !ok {
 					continue
 				}
+				// the key/value pair embedded in a node
+				if inner, ok := fa.X.(*ssa.FieldAddr); ok && isFieldOf(inner, "node", "Item") {
+					okW := f == nput
+					if !okW {
+						if al, isAl := inner.X.(*ssa.Alloc); isAl && al.Heap {
+							okW = true
+						}
+					}
+					c.ob("AG1", p.FuncName(f), "writes the key/value of a node", p.InstrPos(st), okW, "a node's stored key or value is written outside put: Get no longer returns what Put stored")
+				}
 				if isFieldOf(fa, "node", "left") || isFieldOf(fa, "node", "mid") || isFieldOf(fa, "node", "right") || isFieldOf(fa, "node", "c") {
 					okW := f == nput
 					if !okW {
